@@ -247,7 +247,9 @@ func H_C13_starttls() {
 		mu.Lock()
 		defer mu.Unlock()
 		got = append(got, rec{r.ID, vConnLayer(r.conn.reader), vConnLayer(r.conn.writer), vConnLayer(w.writer)})
-		_ = w.Write(r.NewResponse(WithResponseCode(ResultSuccess)))
+		werr := w.Write(r.NewResponse(WithResponseCode(ResultSuccess)))
+		// whatever time has passed since the upgrade (no write timeout is configured)
+		vAssertE(werr == nil, "requests before and after the upgrade are answered as on a plain connection")
 	}
 	vAssume(m.Delete(hf) == nil && m.Add(hf) == nil && m.DefaultRoute(hf) == nil)
 	tlsOK := vBool("handshakeOK")
